@@ -6,7 +6,7 @@
    setter and re-arms).  On the unrepaired code both statements are false (nested silent()
    blocks; reset after a completion): see notes/C19.md for the failing histories. *)
 From Coq Require Import ZArith List Lia Bool Sorted.
-From PV Require Import C19.Model C19.Spec C19.Proofs C19.Proofs2 C19.Proofs3.
+From PV Require Import C19.Model C19.Spec C19.Proofs C19.Proofs2 C19.Proofs3 C19.Proofs4.
 Import ListNotations.
 Open Scope Z_scope.
 
@@ -219,3 +219,60 @@ Proof.
   - apply bal_other; [reflexivity|reflexivity|constructor].
   - constructor.
 Qed.
+
+(* ---------------------------------------------------------------------------------------------
+   Stage 3.  Callbacks that raise.  The statement's "calls exactly the currently registered
+   callbacks ... returns the results" is read for callbacks that return; emit() has no try/except,
+   so the first exception leaves emit(): [behx f sender arg = None] models a call that raises.
+   For every well-bracketed history and every such behaviour, what emit does is [spec_emit_x],
+   defined on the history: nothing while silenced; otherwise the expected calls (same list as in
+   C19_dispatch_all) are made in order until one raises, whose exception propagates -- later
+   callbacks are not called, no value is returned; and the registry / flag are untouched. *)
+Theorem C19_dispatch_raising : forall (Arg Res : Type) (behx : func -> Z -> Arg -> option Res)
+    (p : list (op Arg)) (ev snd : Z) (a : Arg) (single : option bool) (rest : list (op Arg)),
+  brackets_ok p = true ->
+  nth_error (outs_x behx init (p ++ Emit ev snd a single :: rest)) (length p) =
+  Some (spec_emit_x behx p ev snd a single) /\
+  exec_x behx init (p ++ [Emit ev snd a single]) = exec_x behx init p.
+Proof. exact dispatch_raising. Qed.
+Print Assumptions C19_dispatch_raising.
+
+(* the prefix property, spelled out: with all results requested either some expected call x raises,
+   everything before it returned, and exactly l1 ++ [x] was called; or none raises and the outcome is
+   the one of the statement.  With a single result requested only the first expected callback is
+   ever called (it raises or its result is returned). *)
+Theorem C19_raising_prefix : forall (Arg Res : Type) (behx : func -> Z -> Arg -> option Res)
+    (reg : list entry) (ev snd : Z) (a : Arg),
+  let l := map (call_of snd a) (expected ev snd reg) in
+  ((exists l1 x l2, l = l1 ++ x :: l2 /\ Forall (fun y => resultx behx y <> None) l1 /\
+                    resultx behx x = None /\ emit_body_x behx reg ev snd a None = XRaise (l1 ++ [x])) \/
+   (exists vs, map (resultx behx) l = map Some vs /\
+               emit_body_x behx reg ev snd a None = XEmit l (RList vs))) /\
+  (emit_body_x behx reg ev snd a (Some true) =
+   match l with
+   | [] => XEmit [] (RList [])
+   | x :: _ => match resultx behx x with None => XRaise [x] | Some v => XEmit [x] (RSingle v) end
+   end).
+Proof. exact raising_prefix. Qed.
+Print Assumptions C19_raising_prefix.
+
+(* callbacks that never raise: exactly the behaviour of C19_dispatch_all *)
+Theorem C19_raising_conservative : forall (Arg Res : Type) (beh : func -> Z -> Arg -> Res)
+    (p : list (op Arg)) (ev snd : Z) (a : Arg) (single : option bool),
+  spec_emit_x (fun f s x => Some (beh f s x)) p ev snd a single =
+  lift_out (spec_emit_all beh p ev snd a single).
+Proof. exact raising_conservative. Qed.
+Print Assumptions C19_raising_conservative.
+
+Definition ex_behx (f : func) (_ : Z) (x : Z) : option Z := if fn_id f =? 1 then None else Some (fn_id f + x).
+Definition ex_histx : list (op Z) :=
+  [Connect f2 (Explicit 0) None true; Connect f0 ByName None false; Connect f1 (Explicit 0) None false;
+   Connect m3 ByName None false].
+Example C19_ex_raise :       (* f0 returns, f1 raises: m3 and the 'last' f2 are never called *)
+  outs_x ex_behx init (ex_histx ++ [Emit 0 1 7 None; Unconnect [TFunc f1]; Emit 0 1 7 None]) =
+  [XNone; XNone; XNone; XNone; XRaise [mkcall f0 1 7; mkcall f1 1 7]; XNone;
+   XEmit [mkcall f0 1 7; mkcall m3 1 7; mkcall f2 1 7] (RList [7; 10; 9])].
+Proof. vm_compute. reflexivity. Qed.
+Example C19_ex_raise_single : (* single: f0 is the only call; the raiser is not reached *)
+  spec_emit_x ex_behx ex_histx 0 1 7 (Some true) = XEmit [mkcall f0 1 7] (RSingle 7).
+Proof. vm_compute. reflexivity. Qed.
